@@ -13,6 +13,7 @@ def run(tier):
     # CBox / CSliceBox / typed objects: dropped directly, after into_opaque, unwrapped with into_inner;
     # heap-owning and zero-sized payloads, empty and non-empty boxed slices (spec/Boxes.tla)
     rt = os.path.join(cargo_build("rt"), "rt")
+    lib.mc_step(c, "MC_Boxes", "MC_Boxes.cfg", workers=8, timeout=1200, what="Boxes spec")
     j, n = lib.gen_step(c, "Gen_Boxes", "Gen_Boxes.cfg" if tier == "quick" else "Gen_Boxes_thorough.cfg", "gen_boxes")
     b, s = lib.replay_step(c, rt, ["boxes"], j, parts=4, what="CBox/CSliceBox lifecycle diverges from the specification")
     cov["behaviours_replayed"] += b
